@@ -173,14 +173,15 @@ def run_parse(repo: Repo, rel: str, cls: str, params: dict, entry: dict, unroll:
     return [summarise(flow, e, out, "parse", construct, variant, entry) for e in exits], flow
 
 
-def run_skeleton(repo: Repo, sk: tmpl.Skeleton, params: dict, entry: dict, unroll: int, *, body: list[ast.stmt] | None = None, result_var: str | None = "MATCHED", out_name: str = "PAIRS") -> tuple[list[PathRec], Flow]:
+def run_skeleton(repo: Repo, sk: tmpl.Skeleton, params: dict, entry: dict, unroll: int, *, body: list[ast.stmt] | None = None, result_var: str | None = "MATCHED", out_name: str = "PAIRS", helpers: dict | None = None) -> tuple[list[PathRec], Flow]:
     try:
         tree = ast.parse(sk.source)
     except SyntaxError as e:
         raise _SkeletonSyntax(sk, e) from e
     stmts = body if body is not None else tree.body
     flow = Flow(repo, construct=sk.construct, self_attrs={}, modconst={}, unroll=unroll, template=True)
-    flow.free_ok = {n for n, _ in sk.constants}
+    flow.free_ok = {n for n, _ in sk.constants} | set(helpers or {})
+    flow.template_helpers = dict(helpers or {})  # type: ignore[attr-defined]
     st, out = entry_state(flow, entry, {"state": "state", out_name: "pairs"})
     exits = flow.run(stmts, st, result_var=result_var)
     variant = _variant(params, entry) + ("{" + ",".join(f"{c}={'T' if d else 'F'}" for c, d in sk.decisions) + "}" if sk.decisions else "")
